@@ -386,11 +386,14 @@ impl CodegenContext {
                                 && existing.data != symbol.data
                                 && existing.read_only())
                         {
-                            let span = symbol.span.expect("no span provided");
-                            return Err(Diagnostic::error()
-                                .with_message(format!("cannot redefine symbol: {}", &path))
-                                .with_labels(vec![span.to_label()])
-                                .into());
+                            // Automatically registered symbols (e.g. segments.<name>.start) have no span;
+                            // then point at the existing (user-defined) symbol instead
+                            let mut diag = Diagnostic::error()
+                                .with_message(format!("cannot redefine symbol: {}", &path));
+                            if let Some(span) = symbol.span.or(existing.span) {
+                                diag = diag.with_labels(vec![span.to_label()]);
+                            }
+                            return Err(diag.into());
                         }
 
                         // If the symbol already existed but with a different value,
@@ -697,7 +700,10 @@ impl CodegenContext {
                                 opts.write = write != 0;
                             }
                             opts.bank =
-                                extractor.try_get_string(self, "bank")?.map(Identifier::new);
+                                match extractor.try_get_string(self, "bank")? {
+                                    Some(bank) => Some(to_identifier(bank)?),
+                                    None => None,
+                                };
                             match extractor.try_get_i64(self, "pc")? {
                                 Some(target) => opts.target_address = target.into(),
                                 None => opts.target_address = opts.initial_pc,
@@ -1431,7 +1437,9 @@ pub fn codegen(
                 errors = e.with_code_map(&ctx.tree.code_map);
             }
         }
-        ctx.after_pass().expect("Could not finalize pass");
+        if let Err(e) = ctx.after_pass() {
+            errors.extend(e);
+        }
 
         #[cfg(datatrash_mos_verif)]
         if verif_hooks::observe_pass(&ctx, &errors) {
